@@ -693,6 +693,11 @@ var vpCorpus = map[string]bool{
 	"azure-other-mails/EnrichSession/profile/otherMails/0=number":                     true,
 	"azure-other-mails/EnrichSession/profile/otherMails/0=object":                     true,
 	"login.gov/Redeem/keys/keys=empty-array":                                          true,
+	"google-groups/Redeem/google-hasmember/=null":                                     true,
+	"google-groups/Redeem/google-hasmemberbody=null":                                  true,
+	"google-groups/EnrichSession/google-hasmember/=null":                              true,
+	"google-groups/RefreshSession/google-hasmember/=null":                             true,
+	"google-groups/Redeem/google-member/=null":                                        true,
 }
 
 // lookups whose failure the provider tolerates by design (the session is created without what they would have added)
